@@ -3,13 +3,13 @@
 Theorems (coq/props/C04.v over Bytecode/Skeleton/Verifier/VerifierProofs/VerifierRun*.v): soundness of the
 bytecode verifier (a checked annotation is an inductive invariant of the per-frame shape semantics: no
 fetch outside the code, every constant/local/upvalue operand exists, one (height, handlers) shape per pc
-when `unique`), operand widths, opcode numbering tie, jump-limit side condition (refuted today).
+when `unique`), operand widths, opcode numbering tie, jump-limit side condition (true since /repo 927c3c9; its refutation for the old constant is kept).
 
 Tie = translation validation on EVERY run: the REAL compiler (harness `compile`, `corefns`) is run on the test
 scripts, core.yl's methods, generated programs and a limit family sitting exactly on every encoding bound;
-what it returns is re-encoded as a wire string and judged by the PROVED verifier under vm_compute
-(`YV.VerifierRun.run_report`).  Oracle: compiler Ok => verifier OK with unique heights; one past a limit =>
-compiler Err.  A flagged function is classified by (reason, instruction shape) into the known defect
+what it returns is re-encoded as a Gallina wire term and judged by the PROVED verifier under vm_compute
+(`YV.VerifierWire.run_report_w` = `YV.VerifierRun.run_report_program` on the decoded program).
+Oracle: compiler Ok => verifier OK with unique heights; one past a limit => compiler Err.  A flagged function is classified by (reason, instruction shape) into the known defect
 classes of notes/C04-findings.json; anything else is a VIOLATION with the (shrunk) source as replay."""
 import json
 import os
@@ -105,15 +105,6 @@ def bfs_order(tree):
     return [tree[i] for i in order], ren
 
 
-def wire_of(tree):
-    fns, ren = bfs_order(tree)
-    parts = []
-    for fn in fns:
-        cs = "".join(("f%d." % ren[int(c[1:])]) if c[0] == "f" else (c[0] if c[0] in "sn" else "o") for c in fn.consts)
-        parts.append("%d,%d:%s:%s" % (fn.arity, fn.upv, fn.code.hex(), cs))
-    return "|".join(parts), fns
-
-
 def disasm(fn, tree_bfs=None, upv_of=None):
     """-> list of (pc, name, a, b, nx); stops at the first undecodable byte"""
     code = fn.code
@@ -196,15 +187,9 @@ def try_regions(ins):
                     r["end"] = pc
                     break
                 depth -= 1
-        r["has_finally"] = r["end"] is not None and _finally_follows(ins, by_pc, r)
+        # without a finally clause `fin` is simply the code after the statement: whether the EndFinally found belongs to
+        # THIS handler cannot be told from the bytes (and does not matter to the VM); `end` is a conservative guess
     return regs
-
-
-def _finally_follows(ins, by_pc, r):
-    # without a finally clause, `fin` is simply the code after the statement; we cannot tell syntactically from
-    # the bytes alone whether the next EndFinally belongs to this handler - the classification only needs
-    # "there is an EndFinally later in the function", so this is a conservative yes.
-    return True
 
 
 def loops_of(ins):
@@ -1130,7 +1115,7 @@ def run(ctx):
     citems, ncore = core_items(binary, ctx)
     items += citems
     # ---- 3. generated programs
-    n_clean, n_full = (1200, 800) if quick else (18000, 12000)
+    n_clean, n_full = (1200, 800) if quick else (12000, 8000)
     scale = float(os.environ.get("C04_GEN_SCALE", "1"))      # developer knob (mutation experiments); default 1
     n_clean, n_full = max(1, int(n_clean * scale)), max(1, int(n_full * scale))
     gen = [("clean",) + gen_program(rng, "clean") for _ in range(n_clean)] + \
